@@ -393,14 +393,24 @@ func TestVerif_C12_UDPMuxModel(t *testing.T) {
 			case "getConn":
 				v6 := rapid.Bool().Draw(rt, "v6")
 				u := fmt.Sprintf("u%d", nextU)
-				// either a brand-new ufrag or the other family of an existing live ufrag
-				if l := live(); len(l) > 0 && rapid.Bool().Draw(rt, "otherFamily") {
+				// a brand-new ufrag, the other family of an existing live ufrag, or a ufrag whose connection was
+				// removed / closed a moment ago (an agent restarted with the same ufrag)
+				switch pick := rapid.IntRange(0, 3).Draw(rt, "ufragChoice"); {
+				case pick == 0 && len(live()) > 0:
+					l := live()
 					c := l[rapid.IntRange(0, len(l)-1).Draw(rt, "which")]
 					if reg[regKey(c.ufrag, !c.v6)] != nil || c.removed {
 						continue
 					}
 					u, v6 = c.ufrag, !c.v6
-				} else {
+				case pick == 1 && len(conns) > 0:
+					c := conns[rapid.IntRange(0, len(conns)-1).Draw(rt, "whichOld")]
+					if !c.removed || reg[regKey(c.ufrag, c.v6)] != nil {
+						continue
+					}
+					u, v6 = c.ufrag, c.v6
+					lbl["ufrag-reused-after-removal"] = true
+				default:
 					nextU++
 				}
 				addr := &net.UDPAddr{IP: net.IPv4(10, 0, 0, 1), Port: 7000}
@@ -578,10 +588,12 @@ func TestVerif_C12_UDPMuxModel(t *testing.T) {
 					if !c.removed && !muxClose && !waitUnregistered(c) {
 						st.Fail(rt, "C12/close/not-unregistered", "%s: connection %s still registered after its last handle was closed", where, c.ufrag)
 					}
-					// the close watcher removes by ufrag (both families)
+					// closing the last handle ends that connection only: the other family's connection of the same
+					// ufrag keeps its own handles and stays registered
+					unbind(c)
 					for _, x := range conns {
-						if x.ufrag == c.ufrag && !x.removed {
-							unbind(x)
+						if x.ufrag == c.ufrag && x != c && !x.removed {
+							lbl["close-last-handle-with-live-sibling-family"] = true
 						}
 					}
 					lbl["close-last-handle"] = true
